@@ -12,7 +12,7 @@ func c07DHCP4(entry string, n []uint64, f []string) string {
 	case "d4msg":
 		m, err := ParseMessage(data)
 		if err != nil {
-			return "err 1"
+			return "err"
 		}
 		o := m.Options
 		hasOpts := len(data) >= 240 && data[236] == 0x63 && data[237] == 0x82 && data[238] == 0x53 && data[239] == 0x63
